@@ -206,6 +206,17 @@ def stepSync (cas obs : String) : String :=
     let ccS := match o.status, o.cc with | some _, some n => toString n | _, _ => "-"
     let model := s!"log={",".intercalate ob.log} status={stS} cc={ccS} revs={";".intercalate (ob.revs.map showRevD)} out={ob.out} mut=0 creates={",".intercalate ((o.acts.take (if o.outcome == .ok || o.log.isEmpty then o.acts.length else o.acts.length)).filterMap (fun a => match a with | .create od rv => some s!"{canonicalName c.i.setName od}@{rv}" | _ => none))} stvar=0 tplbad=0"
     let obs' := match obs.splitOn " site=" with | o :: _ => o | [] => obs
+    -- a history holding a revision whose data cannot be applied (JSON, but not a StatefulSet once patched): the model has
+    -- no such revisions; the case is judged on the real code only: no panic, and when the stored current revision is such a
+    -- revision and the reconcile gets as far as resolving it, the sync reports an error
+    let unappliable (d : String) : Bool := d == "R" || d == "S"
+    if c.i.store.any (fun r => unappliable r.data) then
+      let hit := c.i.store.any (fun r => r.name == c.i.stored.currentRev && unappliable r.data && (r.selMatch || r.marker) && r.owner != .other)
+      let mon := verdict [
+        ("C15.nopanic", fieldD obs' "out" != "panic"),
+        ("C09.unappliable", c.i.paused || !c.i.selectorOk || !hit || fieldD obs' "out" == "err"),
+        ("C10.cache", fieldD obs' "mut" != "1")]
+      s!"{obs'}\t{mon}\tunappliable" else
     -- claims mode: the sync model has no claim templates; the case is judged by the monitors on the real code only
     if c.claims then s!"{obs'}\t{monitorSync c obs'}\tclaims" else
     s!"{model}\t{monitorSync c obs'}\t{syTag c o}"
